@@ -26,6 +26,9 @@ const (
 	ttRefresh = "urn:ietf:params:oauth:token-type:refresh_token"
 	ttID      = "urn:ietf:params:oauth:token-type:id_token"
 	ttJWT     = "urn:ietf:params:oauth:token-type:jwt"
+	// registered by RFC 8693 but NOT supported by this provider (oidc.AllTokenTypes)
+	ttSAML1 = "urn:ietf:params:oauth:token-type:saml1"
+	ttSAML2 = "urn:ietf:params:oauth:token-type:saml2"
 )
 
 type c15Tokens struct {
@@ -62,6 +65,17 @@ type c15Issued struct {
 	live     bool
 	subject  string
 	audience []string
+	// what the token ITSELF carries when it is self-contained (a JWT access token, an ID token): its own claims
+	form             string // "opaque" | "jwt" | "id" | ""
+	jsub, jact, jsrc string // sub, act.sub, and which storage hook supplied the claims (c15_src / c15_ui_src)
+}
+
+func c15Act(m map[string]any) string {
+	if a, ok := m["act"].(map[string]any); ok {
+		sub, _ := a["sub"].(string)
+		return sub
+	}
+	return ""
 }
 
 func c15Classify(bed *opbed.Bed, tok string) c15Issued {
@@ -78,6 +92,7 @@ func c15Classify(bed *opbed.Bed, tok string) c15Issued {
 		parts := strings.Split(plain, ":")
 		if len(parts) == 2 {
 			if is, ok := stored(parts[0]); ok {
+				is.form = "opaque"
 				return is
 			}
 		}
@@ -97,6 +112,13 @@ func c15Classify(bed *opbed.Bed, tok string) c15Issued {
 	sub, _ := m["sub"].(string)
 	if jti, _ := m["jti"].(string); jti != "" {
 		if is, ok := stored(jti); ok {
+			is.form, is.jsub, is.jact = "jwt", sub, c15Act(m)
+			is.jsrc, _ = m[c15SrcClaim].(string)
+			// live at the provider = known to the storage AND accepted by the provider's own access-token verifier (issuer, signature, times)
+			ctx := op.ContextWithIssuer(context.Background(), opbed.Issuer)
+			if _, err := op.VerifyAccessToken[*oidc.AccessTokenClaims](ctx, tok, bed.Provider.AccessTokenVerifier(ctx)); err != nil {
+				is.live = false
+			}
 			return is
 		}
 	}
@@ -113,7 +135,11 @@ func c15Classify(bed *opbed.Bed, tok string) c15Issued {
 	}
 	exp, _ := m["exp"].(float64)
 	iss, _ := m["iss"].(string)
-	return c15Issued{kind: "id", live: iss == opbed.Issuer && int64(exp) > time.Now().Unix(), subject: sub, audience: aud}
+	uisrc, _ := m[c15UISrcClaim].(string)
+	ctx := op.ContextWithIssuer(context.Background(), opbed.Issuer)
+	_, verr := op.VerifyIDTokenHint[*oidc.IDTokenClaims](ctx, tok, bed.Provider.IDTokenHintVerifier(ctx))
+	return c15Issued{kind: "id", live: iss == opbed.Issuer && int64(exp) > time.Now().Unix() && verr == nil, subject: sub, audience: aud,
+		form: "id", jsub: sub, jact: c15Act(m), jsrc: uisrc}
 }
 
 // ---------------------------------------------------------------- one case
@@ -127,6 +153,9 @@ type c15Reg struct { // the presenter's registration
 type c15Spec struct {
 	router         string
 	capTE, capTEV  bool
+	capPC, capUI   bool   // the storage also implements CanGetPrivateClaimsFromRequest / CanSetUserinfoFromRequest
+	noSubject      bool   // subject_token absent
+	aTypeAlone     string // actor_token_type sent WITHOUT an actor_token ("" = not sent)
 	storeDefault   string // requested_token_type the storage fills in when absent ("" = refresh_token)
 	reg            c15Reg
 	cred           string // own | wrong-secret | basic-for-post (a post client sending Basic)
@@ -146,21 +175,22 @@ var (
 )
 
 func c15Random(r *hx.Rand) c15Spec {
-	sp := c15Spec{router: hx.Pick(r, "provider", "legacy"), capTE: r.Chance(90), capTEV: r.Chance(70),
+	sp := c15Spec{router: hx.Pick(r, "provider", "legacy"), capTE: r.Chance(90), capTEV: r.Chance(70), capPC: r.Bool(), capUI: r.Bool(),
 		storeDefault: hx.Pick(r, "", "", ttAccess, ttID)}
 	// the presenter: {token-exchange grant} x {refresh grant} x auth method, mostly with the exchange grant
-	sp.reg = c15Reg{te: r.Chance(90), rt: r.Bool(), auth: hx.Pick(r, "basic", "basic", "basic", "basic", "basic", "post", "none", "pk"), jwtAT: r.Chance(25)}
+	sp.reg = c15Reg{te: r.Chance(90), rt: r.Bool(), auth: hx.Pick(r, "basic", "basic", "basic", "basic", "basic", "post", "none", "pk"), jwtAT: r.Chance(45)}
 	sp.cred = hx.Pick(r, "own", "own", "own", "own", "own", "own", "own", "own", "own", "own", "own", "own", "own", "wrong-secret")
 	sp.user = hx.Pick(r, "user1", "user1", "user1", "user2", "user2", "user1", "user2", "user1", "user2", refstore.BlockedUser)
 	if r.Chance(35) {
 		sp.skind = hx.Pick(r, c15TPKinds...)
 	} else {
-		sp.skind = hx.Pick(r, "opaque-at", "opaque-at", "jwt-at", "refresh", "refresh", "id", "expired-at", "revoked-at", "revoked-jwt-at", "expired-id", "foreign-jwt", "rotated-rt", "garbage")
+		sp.skind = hx.Pick(r, "opaque-at", "opaque-at", "jwt-at", "refresh", "refresh", "id", "expired-at", "revoked-at", "revoked-jwt-at", "expired-id", "foreign-jwt", "rotated-rt", "garbage",
+			"xchg-at", "xchg-jwt-at", "xchg-rt", "xchg-id", "revoked-xchg-at")
 	}
 	sp.sshadow, sp.ashadow = r.Chance(12), r.Chance(12)
 	sp.sdecl = "right"
 	if r.Chance(15) {
-		sp.sdecl = hx.Pick(r, ttAccess, ttRefresh, ttID, ttJWT, "urn:unknown", "")
+		sp.sdecl = hx.Pick(r, ttAccess, ttRefresh, ttID, ttJWT, "urn:unknown", "", ttSAML1, ttSAML2)
 	}
 	switch {
 	case r.Chance(45):
@@ -168,13 +198,18 @@ func c15Random(r *hx.Rand) c15Spec {
 	case r.Chance(50):
 		sp.akind = hx.Pick(r, c15TPKinds...)
 	default:
-		sp.akind = hx.Pick(r, "opaque-at", "jwt-at", "id", "refresh", "expired-at", "revoked-jwt-at", "expired-id", "garbage")
+		sp.akind = hx.Pick(r, "opaque-at", "jwt-at", "id", "refresh", "expired-at", "revoked-jwt-at", "expired-id", "garbage", "xchg-at", "xchg-id", "revoked-xchg-at")
 	}
 	sp.adecl = "right"
-	if r.Chance(12) {
-		sp.adecl = hx.Pick(r, ttAccess, ttID, ttJWT, "urn:unknown")
+	if r.Chance(18) {
+		// (incl. an actor_token WITHOUT actor_token_type: "")
+		sp.adecl = hx.Pick(r, ttAccess, ttID, ttJWT, "urn:unknown", "", "", ttSAML2)
 	}
-	sp.requested = hx.Pick(r, "", "", ttAccess, ttAccess, ttAccess, ttRefresh, ttRefresh, ttRefresh, ttID, ttID, ttJWT, "urn:unknown")
+	if sp.akind == "none" && r.Chance(8) {
+		sp.aTypeAlone = hx.Pick(r, ttAccess, ttID, ttJWT, "urn:unknown") // actor_token_type without an actor_token
+	}
+	sp.noSubject = r.Chance(2)
+	sp.requested = hx.Pick(r, "", "", ttAccess, ttAccess, ttAccess, ttAccess, ttRefresh, ttRefresh, ttRefresh, ttRefresh, ttID, ttID, ttID, ttJWT, "urn:unknown", ttSAML2)
 	sp.scopes = hx.Pick(r, []string{"openid"}, []string{"openid", "profile"}, []string{"openid", "address"}, []string(nil),
 		[]string{"openid", refstore.ImpersonateScopePrefix + "user2"}, []string{"openid", refstore.ImpersonateScopePrefix + refstore.BlockedUser})
 	sp.audience = hx.Pick(r, []string(nil), []string(nil), []string{"api1"}, []string{"api1", "api2"})
@@ -219,6 +254,81 @@ func c15Fixed() []c15Spec {
 	add("audience", func(s *c15Spec) {
 		s.audience, s.rsrc, s.scopes = []string{"api1"}, []string{"https://rs.example/a"}, []string{"openid", "profile"}
 	})
+	// ---- deep3
+	// the optional-capability cross of the storage x the access token type of the presenter, for the two flows in which the
+	// storage policy decides an ACTOR (impersonation: scope, no actor token; delegation: an actor token) and for each issuable type
+	imp := []string{"openid", refstore.ImpersonateScopePrefix + "user2"}
+	for m := 0; m < 8; m++ {
+		pc, ui, jwt := m&1 != 0, m&2 != 0, m&4 != 0
+		for _, req := range []string{ttAccess, ttRefresh, ttID} {
+			req := req
+			lab := fmt.Sprintf("pc%d-ui%d-jwt%d:%s", b2i(pc), b2i(ui), b2i(jwt), c15Short(req))
+			add("impersonation:"+lab, func(s *c15Spec) { s.capPC, s.capUI, s.reg.jwtAT, s.requested, s.scopes = pc, ui, jwt, req, imp })
+			add("delegation:"+lab, func(s *c15Spec) { s.capPC, s.capUI, s.reg.jwtAT, s.requested, s.akind = pc, ui, jwt, req, "opaque-at" })
+		}
+	}
+	// delegation AND impersonation in one request (an actor token and the policy's scope): subject = the impersonated user, actor = the actor
+	add("delegation+impersonation:opaque", func(s *c15Spec) { s.akind, s.scopes = "opaque-at", imp })
+	add("delegation+impersonation:jwt", func(s *c15Spec) { s.akind, s.scopes, s.reg.jwtAT, s.capPC = "jwt-at", imp, true, true })
+	add("delegation+impersonation:id", func(s *c15Spec) { s.akind, s.scopes, s.requested, s.capUI = "id", imp, ttID, true })
+	// every subset of the optional / conditionally required parameters present or absent, everything that is present being valid:
+	// bit 0 subject_token_type, 1 actor_token, 2 actor_token_type, 3 requested_token_type, 4 scope, 5 audience, 6 resource
+	for m := 0; m < 128; m++ {
+		m := m
+		add(fmt.Sprintf("subset:%07b", m), func(s *c15Spec) {
+			s.capPC, s.capUI, s.reg.jwtAT = m%3 == 0, m%5 == 0, m%2 == 1
+			if m&1 == 0 {
+				s.sdecl = ""
+			}
+			switch {
+			case m&2 != 0 && m&4 != 0:
+				s.akind = "opaque-at"
+			case m&2 != 0:
+				s.akind, s.adecl = "opaque-at", ""
+			case m&4 != 0:
+				s.aTypeAlone = ttAccess
+			}
+			s.requested, s.scopes = "", nil
+			if m&8 != 0 {
+				s.requested = ttAccess
+			}
+			if m&16 != 0 {
+				s.scopes = []string{"openid"}
+			}
+			if m&32 != 0 {
+				s.audience = []string{"api1"}
+			}
+			if m&64 != 0 {
+				s.rsrc = []string{"https://rs.example/a"}
+			}
+		})
+	}
+	// an actor token WITHOUT a declared type: garbage, the provider's own token, a third-party token the verifier storage knows
+	for _, k := range []string{"garbage", "opaque-at", "id", "expired-at", "tp-both", "tp-actor-only", "tp-subj-only"} {
+		k := k
+		add("actor-without-type:"+k, func(s *c15Spec) { s.akind, s.adecl = k, "" })
+		add("actor-without-type:"+k+":no-verifier", func(s *c15Spec) { s.akind, s.adecl, s.capTEV = k, "", false })
+	}
+	// histories: the subject / actor token is itself the result of an earlier exchange (live, or revoked since)
+	for _, k := range []string{"xchg-at", "xchg-jwt-at", "xchg-rt", "xchg-id", "revoked-xchg-at"} {
+		k := k
+		add("chain:subject:"+k, func(s *c15Spec) { s.skind = k })
+		add("chain:actor:"+k, func(s *c15Spec) { s.akind = k })
+	}
+	// a declared type outside the supported set, with a token the verifier storage would accept under ANY declared type: the
+	// framework's own type checks (one copy per router) are all that stands between the request and the storage
+	add("subject-unknown-type:tp-both", func(s *c15Spec) { s.skind, s.sdecl = "tp-both", "urn:unknown" })
+	add("actor-unknown-type:tp-both", func(s *c15Spec) { s.akind, s.adecl = "tp-both", "urn:unknown" })
+	add("actor-unknown-type:tp-actor-only", func(s *c15Spec) { s.akind, s.adecl = "tp-actor-only", "urn:unknown" })
+	add("requested-unknown-type", func(s *c15Spec) { s.requested = "urn:unknown" })
+	for _, t := range []string{ttSAML1, ttSAML2} {
+		t := t
+		add("subject-type:"+c15Short(t)+":tp-both", func(s *c15Spec) { s.skind, s.sdecl = "tp-both", t })
+		add("actor-type:"+c15Short(t)+":tp-both", func(s *c15Spec) { s.akind, s.adecl = "tp-both", t })
+		add("requested-type:"+c15Short(t), func(s *c15Spec) { s.requested = t })
+	}
+	add("actor-type-without-actor", func(s *c15Spec) { s.aTypeAlone = ttJWT })
+	add("no-subject-token", func(s *c15Spec) { s.noSubject = true })
 	return out
 }
 
@@ -277,6 +387,28 @@ func (c *c15Case) mk(kind, user, role string) c15Pres {
 		t := own(c.web)
 		bed.Do(bed.Form("/oauth/token", url.Values{"grant_type": {"refresh_token"}, "refresh_token": {t.refresh}}, ownAuth(c.sy, c.web)))
 		p.tok, p.right = t.refresh, ttRefresh
+	case "xchg-at", "xchg-jwt-at", "xchg-rt", "xchg-id", "revoked-xchg-at":
+		// HISTORY: a token that is itself the result of an earlier token exchange (by the client web / webjwt, from a fresh access
+		// token of the user) - what an exchange hands out must be live at the provider, i.e. usable like any other token of its type
+		fc := c.web
+		if kind == "xchg-jwt-at" {
+			fc = c.webj
+		}
+		want := map[string]string{"xchg-at": ttAccess, "xchg-jwt-at": ttAccess, "revoked-xchg-at": ttAccess, "xchg-rt": ttRefresh, "xchg-id": ttID}[kind]
+		r := bed.Do(bed.Form("/oauth/token", url.Values{"grant_type": {string(oidc.GrantTypeTokenExchange)}, "subject_token": {own(fc).access},
+			"subject_token_type": {ttAccess}, "requested_token_type": {want}, "scope": {"openid"}}, ownAuth(c.sy, fc)))
+		p.tok, p.right = r.Str("access_token"), want
+		if want == ttRefresh {
+			p.tok = r.Str("refresh_token")
+		}
+		switch {
+		case r.Status != 200 || p.tok == "":
+			p.tok, p.right = "garbage-"+role, "" // no exchange storage / vetoed: nothing was handed out
+		case kind == "revoked-xchg-at":
+			bed.Do(bed.Form("/revoke", url.Values{"token": {p.tok}}, ownAuth(c.sy, fc)))
+		default:
+			p.live[want] = true
+		}
 	case "tp-both", "tp-both-diff", "tp-subj-only", "tp-actor-only", "tp-neither":
 		// a third-party credential only the optional verifier storage knows; its two role policies are independent
 		p.tok, p.isTP = "tp:"+kind, true
@@ -346,7 +478,10 @@ func c15Stream(r *hx.Rand, tier string, n int, w *bufio.Writer) map[string]int {
 			sp = c15Random(r)
 		}
 		bed, err := opbed.New(opbed.Config{Router: sp.router, S256: true, Post: true, PrivateKeyJWT: true, Refresh: true,
-			Caps: refstore.Caps{CC: true, TE: sp.capTE, TEVerifier: sp.capTEV, Device: true}})
+			Caps: refstore.Caps{CC: true, TE: sp.capTE, TEVerifier: sp.capTEV, Device: true, UserinfoFromReq: sp.capUI},
+			StorageFn: func(st *refstore.Store) op.Storage {
+				return c15Storage(st, c15Caps{TE: sp.capTE, TEV: sp.capTEV, PC: sp.capPC, UI: sp.capUI})
+			}})
 		if err != nil {
 			panic(err)
 		}
@@ -445,7 +580,10 @@ func c15Stream(r *hx.Rand, tier string, n int, w *bufio.Writer) map[string]int {
 		}
 
 		// ---- the request
-		form := url.Values{"grant_type": {string(oidc.GrantTypeTokenExchange)}, "subject_token": {subj.tok}}
+		form := url.Values{"grant_type": {string(oidc.GrantTypeTokenExchange)}}
+		if !sp.noSubject {
+			form.Set("subject_token", subj.tok)
+		}
 		if declared != "" {
 			form.Set("subject_token_type", declared)
 		}
@@ -454,6 +592,11 @@ func c15Stream(r *hx.Rand, tier string, n int, w *bufio.Writer) map[string]int {
 		}
 		if sp.akind != "none" {
 			form.Set("actor_token", actor.tok)
+			if actorDeclared != "" {
+				form.Set("actor_token_type", actorDeclared)
+			}
+		} else if sp.aTypeAlone != "" {
+			actorDeclared = sp.aTypeAlone
 			form.Set("actor_token_type", actorDeclared)
 		}
 		if len(sp.scopes) > 0 {
@@ -465,7 +608,8 @@ func c15Stream(r *hx.Rand, tier string, n int, w *bufio.Writer) map[string]int {
 		for _, a := range sp.rsrc {
 			form.Add("resource", a)
 		}
-		l := hx.NewLine("C15").I("case", int64(i)).S("router", sp.router).B("cap.te", sp.capTE).B("cap.tev", sp.capTEV).S("issuer", opbed.Issuer).
+		l := hx.NewLine("C15").I("case", int64(i)).S("router", sp.router).B("cap.te", sp.capTE).B("cap.tev", sp.capTEV).B("cap.pc", sp.capPC).B("cap.ui", sp.capUI).
+			B("px.jwt", sp.reg.jwtAT).S("issuer", opbed.Issuer).
 			B("post", true).B("pkjwt", true).B("refresh", true).B("cap.cc", true).B("cap.device", true).S("st.default", sp.storeDefault)
 		if sp.fixed != "" {
 			l.S("fixed", sp.fixed)
@@ -511,7 +655,11 @@ func c15Stream(r *hx.Rand, tier string, n int, w *bufio.Writer) map[string]int {
 			S("a.kind", sp.akind).S("a.type", actorDeclared).B("a.live", aLive).S("a.sub", aSub).
 			S("req.type", sp.requested).L("scopes", sp.scopes).L("aud", sp.audience).L("res", sp.rsrc).B("veto", veto)
 		// oracle answers for the model (asked of the real libraries / the storage's table just before the request)
-		cs.oracleKV(l, "s.", "S", subj.tok, declared)
+		if sp.noSubject {
+			l.S("s.tok", "")
+		} else {
+			cs.oracleKV(l, "s.", "S", subj.tok, declared)
+		}
 		if sp.akind != "none" {
 			label := "A"
 			if actor.tok == subj.tok {
@@ -539,6 +687,8 @@ func c15Stream(r *hx.Rand, tier string, n int, w *bufio.Writer) map[string]int {
 		case resp.Status == 200:
 			is := c15Classify(bed, resp.Str("access_token"))
 			l.S("obs", "ok").S("o.issued", resp.Str("issued_token_type")).S("o.at", is.kind).B("o.atlive", is.live).S("o.sub", is.subject).L("o.aud", is.audience)
+			// the token's own claims (a JWT access token / an ID token is self-contained): subject, actor, which hook supplied them
+			l.S("o.form", is.form).S("o.jsub", is.jsub).S("o.jact", is.jact).S("o.src", is.jsrc)
 			if rt := resp.Str("refresh_token"); rt != "" {
 				rec := bed.Store.Refresh(rt)
 				l.B("o.rt", true).B("o.rtlive", rec != nil && rec.Expiration.After(time.Now()))
@@ -563,6 +713,13 @@ func c15Stream(r *hx.Rand, tier string, n int, w *bufio.Writer) map[string]int {
 		stats[fmt.Sprintf("presenter-te%d-rt%d-%s", b2i(sp.reg.te), b2i(sp.reg.rt), sp.reg.auth)]++
 		stats["cred-"+sp.cred]++
 		stats[fmt.Sprintf("storage-te%d-verifier%d", b2i(sp.capTE), b2i(sp.capTEV))]++
+		stats[fmt.Sprintf("storage-te%d-privclaims%d-userinfo%d/px-jwt%d", b2i(sp.capTE), b2i(sp.capPC), b2i(sp.capUI), b2i(sp.reg.jwtAT))]++
+		stats[fmt.Sprintf("params-stype%d-atok%d-atype%d-req%d-scope%d-aud%d-res%d", b2i(declared != ""), b2i(sp.akind != "none"), b2i(actorDeclared != ""),
+			b2i(sp.requested != ""), b2i(len(sp.scopes) > 0), b2i(len(sp.audience) > 0), b2i(len(sp.rsrc) > 0))]++
+		if resp.Status == 200 {
+			is := c15Classify(bed, resp.Str("access_token"))
+			stats["issued-"+is.form+"/claims-from-"+is.jsrc+"/act-"+c15ActClass(is.jact, sSub, aSub)]++
+		}
 		stats["requested-"+c15Short(sp.requested)+"/default-"+c15Short(sp.storeDefault)]++
 		if subj.isTP {
 			stats[fmt.Sprintf("thirdparty-subject-%s/verifier%d/%s", sp.skind, b2i(sp.capTEV), c15Outcome(resp.Status))]++
@@ -582,6 +739,19 @@ func c15Stream(r *hx.Rand, tier string, n int, w *bufio.Writer) map[string]int {
 		fmt.Fprintln(w, l.String())
 	}
 	return stats
+}
+
+// c15ActClass: whose identity the token's act.sub is
+func c15ActClass(act, subjectSub, actorSub string) string {
+	switch {
+	case act == "":
+		return "none"
+	case act == actorSub:
+		return "actor"
+	case act == subjectSub:
+		return "exchange-subject"
+	}
+	return "other"
 }
 
 func c15Outcome(status int) string {
